@@ -163,12 +163,27 @@ func c20Prop(c *sim.Case) {
 	for i := 0; i < ns; i++ {
 		s := &c20Setting{caKind: sim.Weighted(c, "ca", 2, 2, 4)}
 		s.caIdx = sim.Pick(c, "caidx", 2)
+		// settings that differ from the first one in a single respect: where a pool that shares too much shows
+		variation := -1
+		if i > 0 && sim.Weighted(c, "vary-first", 1, 2) == 1 {
+			variation = sim.Pick(c, "vary-what", 3)
+			s.caKind, s.caIdx = sets[0].caKind, sets[0].caIdx
+			if s.caKind == 2 {
+				s.caKind = 1 // distinct settings never share a file
+			}
+		}
 		if s.caKind == 2 {
 			s.file = filepath.Join(e.dir, fmt.Sprintf("ca-%d.pem", atomic.AddInt64(&c20File, 1)))
 			_ = os.WriteFile(s.file, e.cas[s.caIdx].PEM, 0o644)
 			s.loadCA = s.caIdx
 		}
-		switch sim.Pick(c, "skip", 9) {
+		skipPick := sim.Pick(c, "skip", 9)
+		if variation >= 0 && variation != 0 {
+			s.skip, s.skipDesc = sets[0].skip, sets[0].skipDesc
+			skipPick = -1
+		}
+		switch skipPick {
+		case -1:
 		case 0:
 			s.skipDesc = "unset"
 		case 1:
@@ -179,7 +194,15 @@ func c20Prop(c *sim.Case) {
 			str := []string{"true", "false", "1", "TRUE", "yes", ""}[sim.Pick(c, "skip.s", 6)]
 			s.skip, s.skipDesc = structpb.NewStringValue(str), strconv.Quote(str)
 		}
-		switch sim.Pick(c, "interval", 4) {
+		ivPick := sim.Pick(c, "interval", 4)
+		if variation >= 0 && variation != 1 {
+			s.hasIntvl, s.interval = sets[0].hasIntvl, sets[0].interval
+			ivPick = -1
+		}
+		if variation == 2 {
+			s.caKind = (sets[0].caKind + 1) % 2 // none <-> inline
+		}
+		switch ivPick {
 		case 1:
 			s.hasIntvl, s.interval = true, 0
 		case 2:
